@@ -141,7 +141,7 @@ def main():
     root = "/verif/mutants"
     import glob
     for f in glob.glob(root + "/*/*"):
-        if not os.path.basename(f).startswith(("seed-", "neutral-", "neutral2-")):
+        if not os.path.basename(f).startswith(("seed-", "neutral-", "neutral2-", "neutral3-")):
             os.remove(f)
     scratch = tempfile.mkdtemp(prefix="mkmut.")
     try:
